@@ -45,8 +45,8 @@ def c02_strata(tier: str) -> List[Stratum]:
     return [
         Stratum("args", scale(tier, 14000, 900000),
                 lambda r, i: tg.gen_mixed(r, 1, 10, ["ok"], False, True, zone_sensitive=True,
-                                          kinds=[r.choice(["heater", "plug", "heater", "runner"])],
-                                          op_filter=lambda o: o not in ("login",))),
+                                          kinds=[r.choice(["heater", "plug", "heater", "runner", "breeze"])],
+                                          op_filter=lambda o: o not in ("login", "control_breeze_device"))),
         Stratum("schedules", scale(tier, 5000, 400000),
                 lambda r, i: tg.gen_mixed(r, 1, 8, ["ok"], False, True, zone_sensitive=True, kinds=["heater"],
                                           op_filter=lambda o: o in ("create_schedule", "delete_schedule"))),
@@ -64,7 +64,7 @@ def c03_strata(tier: str) -> List[Stratum]:
                 lambda r, i: tg.gen_mixed(r, r.choice([1, 2, 2]), 20 if r.random() < 0.2 else 6, ["ok"], True, True,
                                           same_device=r.random() < 0.3)),
         Stratum("faulty", scale(tier, 3000, 300000),
-                lambda r, i: tg.gen_mixed(r, r.choice([1, 2]), 6, ["ok", "ok", "segment", "extra", "truncate"], False, True)),
+                lambda r, i: tg.gen_mixed(r, r.choice([1, 2]), 6, ["ok", "ok", "ok", "segment", "extra", "truncate", "eof"], False, True)),
         Stratum("three-to-four-instances", scale(tier, 1500, 200000),
                 lambda r, i: tg.gen_mixed(r, r.choice([3, 4]), 5, ["ok"], True, True, same_device=r.random() < 0.4)),
         Stratum("long-lived", scale(tier, 120, 6000), lambda r, i: tg.gen_long(r, r.randrange(150, 400))),
@@ -108,6 +108,8 @@ def c18_strata(tier: str) -> List[Stratum]:
         Stratum("all-sequences", n, lambda r, i: tg.gen_c18(r, i, m), systematic=True,
                 note="every well-behaved action sequence up to length %d over an 11-letter alphabet" % m),
         Stratum("random", scale(tier, 20000, 600000), lambda r, i: tg.gen_c18(r)),
+        Stratum("two-objects", scale(tier, 3000, 200000), lambda r, i: tg.gen_c18_two(r),
+                note="two API objects for the same device, lifecycles interleaved"),
         Stratum("long-lived", scale(tier, 100, 5000), lambda r, i: tg.gen_c18(r, long=True),
                 note="80-200 lifecycle actions on one API object"),
     ]
